@@ -116,6 +116,14 @@ fn key_universe(rng: &mut StdRng, cfg: &Cfg, long_key: bool) -> Vec<Vec<u8>> {
     if long_key {
         // recoverable on v1 (<= 4074) but not on v2/v3 (<= 4066)
         keys.push(vec![b'L'; 4070]);
+        if cfg.pers {
+            // the longest key this format can recover (its header fills the head block exactly),
+            // one shorter, and one too long
+            let max = if cfg.fmt == 1 { 4074 } else { 4066 };
+            keys.push(vec![b'N'; max]);
+            keys.push(vec![b'O'; max - 1]);
+            keys.push(vec![b'P'; max + 1]);
+        }
         if !cfg.pers {
             keys.push(vec![b'M'; 20_000]);
         }
@@ -426,7 +434,15 @@ pub fn main(args: &[String]) -> i32 {
                     Ok(s) => drop(s),
                     Err(_) => panic!("store still shared"),
                 }
-                store = Arc::new(build_store(&cfg, &path).expect("reopen"));
+                store = match build_store(&cfg, &path) {
+                    Ok(s) => Arc::new(s),
+                    Err(e) => {
+                        // a file the store wrote itself and closed cleanly does not open any more
+                        cx.emit(json!({"e": "reopen_fail", "err": crate::util::err_name(&e)}));
+                        println!("{}", json!({"events": cx.events, "keys": keys.len(), "reopens": reopens, "reopen_failed": true}));
+                        return 0;
+                    }
+                };
                 cx.emit(json!({"e": "reopen", "cfg": cfgj(&cfg), "now": limbs(cx.now),
                     "post": post_state(&store, &keys)}));
                 continue;
